@@ -24,13 +24,35 @@ def _printed(c):
         c.print_ranking()
 
 
+def vandalise(r, depth=0):
+    """scribble on a returned container (and the containers inside it)"""
+    if depth > 3:
+        return
+    try:
+        if isinstance(r, list):
+            for x in list(r):
+                vandalise(x, depth + 1)
+            r.append('scribble')
+            r.reverse()
+            del r[:]
+        elif isinstance(r, dict):
+            for x in list(r.values()):
+                vandalise(x, depth + 1)
+            r.clear()
+            r['scribble'] = 1
+        elif isinstance(r, set):
+            r.clear()
+    except Exception:
+        pass
+
+
 READERS = {
     'to_matrix': lambda c: c.to_matrix(),
     'to_matrix-with-bib': lambda c: c.to_matrix(['bib']),
-    'trials': lambda c: list(c.trials),
-    'trial_objs': lambda c: list(c.trial_objs),
-    'remaining': lambda c: list(c.remaining),
-    'eliminated': lambda c: list(c.eliminated),
+    'trials': lambda c: c.trials,
+    'trial_objs': lambda c: c.trial_objs,
+    'remaining': lambda c: c.remaining,
+    'eliminated': lambda c: c.eliminated,
     'is_finished+is_running': lambda c: (c.is_finished, c.is_running),
     'standings': lambda c: [(j.place, j.ranking_key, j.has_retired) for j in c.ranked_jumpers],
     'print_ranking': _printed,
@@ -262,11 +284,21 @@ class Monitor(object):
         s0 = snap(comp)
         for nm in sorted(READERS):
             try:
-                READERS[nm](comp)
+                r = READERS[nm](comp)
+                r2 = READERS[nm](comp)
             except Exception:
                 ctx.count('unjudged.read-accessor-raised')
                 continue
             ctx.count('eval.read-accessor-probe')
+            # asked twice, the same answer; and what is handed out belongs to the caller: scribbling on it (clearing the
+            # rows of the card, appending to a list of trials) must not reach the competition
+            try:
+                if repr(r) != repr(r2) and ' at 0x' not in repr(r):
+                    ctx.violation('read-accessor-answers-differently-when-asked-twice:%s' % nm, self.describe(self.shadow(comp), 'read', nm),
+                                  repr(r)[:200], repr(r2)[:200])
+            except Exception:
+                pass
+            vandalise(r)
             s1 = snap(comp)
             if s1 != s0:
                 ctx.violation('read-accessor-changes-the-competition:%s:%s' % (nm, '+'.join(snap_diff(s0, s1))[:80]),
@@ -532,6 +564,21 @@ class Monitor(object):
                     ctx.violation('log-replay:differs:%s' % '+'.join(snap_diff(snap(comp), snap(d)))[:90], case, 'indistinguishable', snap_diff(snap(comp), snap(d)))
                 else:
                     ctx.count('judged.log-replay')
+                    # the rebuilt competition is a competition of its own: carrying on with it (a further bar, a further
+                    # trial, a late entry) must not reach the one it was rebuilt from
+                    before = snap(comp)
+                    for m, a in (('set_bar_height', (comp.heights[-1] if comp.heights else D('1.00')) + (0.05 if comp.heights and isinstance(comp.heights[-1], float) else D('0.05'))),
+                                 ('failed', sh.bibs[0] if sh.bibs else 'A'), ('add_jumper', 'late-entry'), ('retired', sh.bibs[-1] if sh.bibs else 'A')):
+                        try:
+                            if m == 'add_jumper':
+                                d.add_jumper(bib=a)
+                            else:
+                                getattr(d, m)(a)
+                        except Exception:
+                            pass
+                    if snap(comp) != before:
+                        ctx.violation('log-replay:replica-shares-state-with-the-original:%s' % '+'.join(snap_diff(before, snap(comp)))[:80], case,
+                                      'original untouched', snap_diff(before, snap(comp)))
                     if len(sh.log) > 8:
                         ctx.sample('log-replay', {'history': [[m, str(v)] for m, v in sh.log], 'state': comp.state, 'refused_calls_in_between': sh.refused}, 3)
             except Exception as e:
@@ -554,6 +601,27 @@ class Monitor(object):
                 ctx.count('unspecified.card-round-trip-with-pass-inside-jump-off')
             # 3. re-orderings keeping each athlete's own sequence within each bar height
             self.reorder(comp, sh, case)
+        finally:
+            self.busy -= 1
+
+    def carry_on(self, c):
+        """one further bar (unless a jump-off round is still open) and one attempt by every athlete; returns who was let
+        through and where that leads"""
+        self.busy += 1
+        try:
+            out = []
+            last = c.heights[-1] if c.heights else D('1.00')
+            step = 0.02 if isinstance(last, float) else D('0.02')
+            for m, a in [('set_bar_height', round(last + step, 2) if isinstance(last, float) else last + step)] + \
+                    [('cleared', j.bib) for j in sorted(c.jumpers, key=lambda j: str(j.bib))]:
+                try:
+                    getattr(c, m)(a)
+                    out.append('accepted')
+                except self.RV:
+                    out.append('refused')
+                except Exception as e:
+                    out.append(type(e).__name__)
+            return (out, observable(c))
         finally:
             self.busy -= 1
 
@@ -625,6 +693,16 @@ class Monitor(object):
                 ctx.violation(sig, dict(case, order=[[(m, b) for m, b in o] for o in order][-2:]), 'accepted', str(e)[:120])
                 return
             ctx.count('eval.interleaving')
+            if observable(d) == want and self.nreplay % 3 == 0:
+                # the same competition, so it goes on the same way: one further bar and one attempt by everybody, applied to a
+                # copy of the original and to the re-ordered rebuild (two interleavings of the same per-athlete sequences)
+                o1, o2 = self.carry_on(clone(comp)), self.carry_on(d)
+                ctx.count('eval.interleaving-carried-on')
+                if o1 != o2:
+                    ctx.violation('interleaving:same-standing-but-goes-on-differently', dict(case, order=[[(m, b) for m, b in o] for o in order][-2:]),
+                                  repr(o1)[:300], repr(o2)[:300])
+                    return
+                continue
             if observable(d) != want:
                 got = observable(d)
                 what = 'state' if got[0] != want[0] else 'places-or-bests' if [x[:2] for x in got[2]] == [x[:2] for x in want[2]] else 'cards'
@@ -677,9 +755,9 @@ class Monitor(object):
 
 
 # --------------------------------------------------------------------------- explorer
-BIBS = 'ABCD'
+BIBS = 'ABCDEF'
 # start lists as callers number them: letters, integers from 0 (a falsy bib), digit strings that differ only by leading zeros
-BIB_SETS = {'letters': (list('ABCD'), 'E'), 'int0': ([0, 1, 2, 3], 4), 'zeros': (['0', '00', '1', '01'], '10')}
+BIB_SETS = {'letters': (list('ABCDEF'), 'G'), 'int0': ([0, 1, 2, 3, 4, 5], 6), 'zeros': (['0', '00', '1', '01', '000', '001'], '10')}
 
 
 class Explorer(object):
@@ -696,7 +774,7 @@ class Explorer(object):
         self.base_height = D('1.00')
         self.float_heights = False
         self.bibs = list(BIBS)        # the start list's bib vocabulary (see BIB_SETS)
-        self.extra_bib = 'E'
+        self.extra_bib = 'G'
 
     def use_bibs(self, name):
         self.bibs, self.extra_bib = BIB_SETS[name]
@@ -905,7 +983,7 @@ class Explorer(object):
         self.states += 1
         return c
 
-    def jumpoff_scenario(self, nj, max_jo=3, scripted=False):
+    def jumpoff_scenario(self, nj, max_jo=3, scripted=False, passes=False, probe_outsiders=False):
         """A rule-conforming competition built to end in a jump-off: K athletes with identical cards tie for first, the
         others have the same best with more failures, a lower best or no clearance; then up to max_jo jump-off heights with
         the bar at, next to, below or above the tied best and random single attempts until it is decided."""
@@ -961,11 +1039,18 @@ class Explorer(object):
             if bar <= 0 or not self.apply(c, 'set_bar_height', bar):
                 break
             parts = list(sh.jo_participants or [])
+            if passes and sh.jo_pass:
+                # after a pass inside the jump-off the rule book no longer says who is in: ask the competition itself
+                parts = [j.bib for j in c.remaining]
             rnd.shuffle(parts)
             if scripted and len(parts) >= 2:
                 # round patterns: all clear / some (not all) fail and are knocked out / all fail / all retire
                 r = rnd.random()
-                if r < 0.35:
+                if passes and r < 0.25:
+                    # one passes the bar the others clear (the code accepts it), then see who is still in
+                    marks = ['passed'] + ['cleared'] * (len(parts) - 1)
+                    rnd.shuffle(marks)
+                elif r < 0.35:
                     marks = ['cleared'] * len(parts)
                 elif r < 0.75:
                     k = rnd.randrange(1, len(parts))
@@ -977,14 +1062,23 @@ class Explorer(object):
                 for b, m in zip(parts, marks):
                     if c.state != 'jumpoff':
                         break
-                    if not must_refuse(sh, {j.bib: j.place for j in c.jumpers}, m, b):
+                    if not must_refuse(sh, {j.bib: j.place for j in c.jumpers}, m, b) or m == 'passed' or (passes and sh.jo_pass):
                         self.apply(c, m, b)
+                if probe_outsiders and c.state == 'jumpoff':
+                    # everybody who is not (or no longer) in the jump-off tries to jump: refused, and nothing changes
+                    for b in list(sh.bibs):
+                        if b not in (sh.jo_participants or []):
+                            self.apply(c, rnd.choice(['cleared', 'failed', 'passed', 'retired']), b)
                 continue
             for b in parts:
                 if c.state != 'jumpoff':
                     break
                 m = rnd.choice(['cleared', 'cleared', 'failed', 'failed', 'retired'] if rnd_no else ['cleared', 'cleared', 'cleared', 'failed'])
-                if not must_refuse(sh, {j.bib: j.place for j in c.jumpers}, m, b):
+                if passes and rnd.random() < 0.2:
+                    # the code accepts a pass inside a jump-off; what it means is left open by the rule text, but the log,
+                    # the card and the jumping order must still rebuild whatever it leads to
+                    m = 'passed'
+                if not must_refuse(sh, {j.bib: j.place for j in c.jumpers}, m, b) or m == 'passed':
                     self.apply(c, m, b)
         if c.state == 'jumpoff':
             for b in list(sh.jo_participants or []):
